@@ -327,8 +327,8 @@ def known_ellipsis_newaxis_through_virtual_record(case, vio):
     """a[..., np.newaxis] where the ellipsis has to pass a VirtualArray whose array is a RecordArray: VirtualArray::getitem_next hands the
     slice to RecordArray's generic (SliceItemPtr) overload, which pushes it into every field, where the eager parent calls the typed
     overload that treats the record as the item: the new axis ends up inside the fields ([[{x: [5]}]] instead of [[[{x: 5}]]])"""
-    if not (case.get("part") == "virtual" and vio.get("bucket", "").startswith("value:getitem|")):
-        return False
+    if not (case.get("part") == "virtual" and vio.get("bucket", "").startswith(("value:getitem|", "errorclass:getitem|"))):
+        return False      # errorclass: records whose fields differ in depth - the eager array refuses the ellipsis, the per-field route does not
     both = any(s_["spec"]["op"] == "getitem" and {"ellipsis", "newaxis"} <= set(i["k"] for i in s_["spec"]["items"]) for s_ in case["steps"])
     record_below_inner_wrapper = any(w["path"] and K.any_node(node_at(case["desc"], w["path"]), lambda n: n["class"] == "RecordArray") for w in case["wraps"])
     return both and record_below_inner_wrapper
